@@ -36,7 +36,7 @@ def split_top(s, sep=","):
             instr = True
             cur += c
         elif c in "([{<":
-            if c == "<" and (i > 0 and s[i - 1] == " " or s[i + 1:i + 2] in (" ", "=")):
+            if c == "<" and (i > 0 and s[i - 1] == " " or s[i + 1:i + 2] in (" ", "=")) and not s[:i].endswith(("const ", "move ", "copy ")):
                 cur += c  # comparison, not generic bracket (does not occur inside MIR operands anyway)
             else:
                 depth += 1
@@ -83,7 +83,7 @@ def parse_call(t):
     """`[dest = ]callee(args) -> [return: bbN, unwind ...]` or `... -> unwind ...` (diverging).
     The callee path may itself contain parentheses (tuple types), so the argument list is the last
     balanced group before ` -> `."""
-    m = re.match(r"^(.*\)) -> (?:\[return: (bb\d+), unwind.*\]|unwind .*)$", t)
+    m = re.match(r"^(.*\)) -> (?:\[return: (bb\d+), unwind.*\]|unwind .*|bb\d+)$", t)
     if not m:
         return None
     head, ret_bb = m.group(1), m.group(2)
@@ -150,6 +150,8 @@ class MirDump:
                         cur.locals["_0"] = cur.ret
                     else:
                         m = re.match(r"^const (.+?promoted\[\d+\]): (.+) = \{$", ln)
+                        if not m:
+                            m = re.match(r"^const ((?:.+::)?[A-Z][A-Z0-9_]*): (.+) = \{$", ln)      # associated / module constants
                         if m:
                             cur = Fn(m.group(1), ln)
                             cur.ret = m.group(2)
@@ -257,6 +259,11 @@ class DeclMap:
         suffix = [d for m, d in c if hint and (m.endswith("::" + hint) or m.endswith(hint))]
         if len(suffix) == 1:
             return suffix[0]
+        # a re-exported path of another crate (`cooklang::Item` for `cooklang::model::Item`): the shallowest module of that crate
+        if hint and "::" not in hint:
+            inside = sorted([(m, d) for m, d in c if m.startswith(hint + "::")], key=lambda md: md[0].count("::"))
+            if inside:
+                return inside[0][1]
         # MIR prints the shortest unambiguous path: an un-prefixed or shorter path means the shallower module
         c2 = sorted(c, key=lambda md: md[0].count("::"))
         if hint:
@@ -273,12 +280,14 @@ class TypeDecls:
     """struct / enum declarations scraped from the crate source: MIR projections are positional,
     aggregate constructors are by name, so the order has to come from the declaration."""
 
-    def __init__(self, src_dir):
+    def __init__(self, src_dir, extra=()):
+        """extra: [(module prefix, source dir)] of further crates whose types appear in the dump (e.g. a dependency of the crate)"""
         self.structs, self.enums = DeclMap(), DeclMap()
-        for path in sorted(glob.glob(os.path.join(src_dir, "**", "*.rs"), recursive=True)):
-            rel = os.path.relpath(path, src_dir)[:-3]
-            mod = "::".join(x for x in rel.split(os.sep) if x not in ("mod", "lib"))
-            self._scan(open(path).read(), mod)
+        for prefix, sdir in [("", src_dir)] + list(extra):
+            for path in sorted(glob.glob(os.path.join(sdir, "**", "*.rs"), recursive=True)):
+                rel = os.path.relpath(path, sdir)[:-3]
+                mod = "::".join([x for x in [prefix] if x] + [x for x in rel.split(os.sep) if x not in ("mod", "lib")])
+                self._scan(open(path).read(), mod)
         self.enums.setdefault("Option", [("None", []), ("Some", ["0"])])
         self.enums.setdefault("Result", [("Ok", ["0"]), ("Err", ["0"])])
         self.enums.setdefault("ControlFlow", [("Continue", ["0"]), ("Break", ["0"])])
@@ -402,6 +411,35 @@ class ElemRef:
         self.vecref, self.idx = vecref, idx
 
 
+class ProjRef:
+    """`&mut base.path` handed back by an inlined callee that projects into one of its reference parameters
+    (e.g. `fn modifiers_mut(&mut self) -> &mut Modifiers { &mut self.modifiers }`): valid in the caller's activation"""
+    def __init__(self, base, path):
+        self.base, self.path = base, list(path)     # path: [("f", idx) | ("v", variant)]
+
+    def __repr__(self):
+        return "ProjRef(%r, %s)" % (self.base, self.path)
+
+
+def place_path(place):
+    """`((*_1).6: T)` -> ("_1", [("f","6")]);  `((((*_1).4: T) as Definition).0: U)` -> ("_1", [("f","4"),("v","Definition"),("f","0")])"""
+    place = place.strip()
+    m = re.match(r"^\(\*(_\d+)\)$|^(_\d+)$", place)
+    if m:
+        return (m.group(1) or m.group(2)), []
+    m = re.match(r"^\((.*)\.(\d+): (.+)\)$", place)
+    if m:
+        root, path = place_path(m.group(1))
+        return (root, path + [("f", m.group(2))]) if root else (None, None)
+    m = re.match(r"^\((.*) as (?:variant#)?(\w+)\)$", place)
+    if m:
+        root, path = place_path(m.group(1))
+        return (root, path + [("v", m.group(2))]) if root else (None, None)
+    if place.startswith("(*") and place.endswith(")"):
+        return place_path(place[2:-1])
+    return None, None
+
+
 class LocalCell:
     """a `&mut T` whose referent lives in a named slot of the *current* activation (used to pass `&mut` arguments and
     closure captures by value-result: the slot is filled on entry and read back on return)"""
@@ -422,6 +460,13 @@ class MapElemRef:
     """`&mut V` returned by HashMap::get_mut"""
     def __init__(self, mapref, idx):
         self.mapref, self.idx = mapref, idx
+
+
+class BoxCell:
+    """`Box::<[T; N]>::new_uninit()` as produced by the `vec![a, b]` expansion: written once through a raw pointer, then
+    turned into a Vec.  Projections and pointer casts of it are the cell itself."""
+    def __init__(self):
+        self.content = None
 
 
 class Opaque:
@@ -455,6 +500,10 @@ def contradicts(pc, cond):
     m = re.match(r"^\(not (\(= [A-Za-z_]\w* -?\d+\))\)$", cond)
     if m and m.group(1) in pc:
         return True
+    # any atom against its own negation
+    neg = cond[5:-1] if (cond.startswith("(not ") and cond.endswith(")")) else "(not %s)" % cond
+    if neg in pc:
+        return True
     return False
 
 
@@ -468,6 +517,10 @@ def fork_env(env):
 class OpenAgg(Agg):
     """aggregate whose untracked fields read as opaque values (e.g. `self` of a large struct)"""
     pass
+
+
+class _AnyFn:
+    name = "<projection>"
 
 
 class Interp:
@@ -484,7 +537,7 @@ class Interp:
     def run(self, fn, args, pc=()):
         env = {}
         for i, ((loc, ty), v) in enumerate(zip(fn.args, args)):
-            if ty.startswith("&mut ") and not isinstance(v, (MutRef, ElemRef, MapElemRef, LocalCell)):
+            if ty.startswith("&mut ") and not isinstance(v, (MutRef, ElemRef, MapElemRef, LocalCell, ProjRef)):
                 # a `&mut T` parameter refers to a slot of this activation: copies of the reference (e.g. a closure
                 # capturing `self`) then alias the same slot
                 env["arg#%d" % i] = v
@@ -524,6 +577,8 @@ class Interp:
             m = re.match(r"^switchInt\((.*)\) -> \[(.*)\]$", t)
             if m:
                 v = self._operand(fn, m.group(1), env)
+                if isinstance(v, Opaque) and getattr(self, "lenient", False):
+                    v = self.lazy_scalar(v, self.place_type(fn, re.sub(r"^(move|copy) ", "", m.group(1).strip())))
                 targets = [x.strip() for x in m.group(2).split(",")]
                 taken_conds = []
                 for tg in targets:
@@ -542,8 +597,13 @@ class Interp:
             m = re.match(r"^assert\((.*?), (\".*\")(?:, .*)?\) -> \[success: (bb\d+), unwind.*\]$", t)
             if m:
                 condtxt = m.group(1).strip()
+                if re.search(r"misaligned pointer dereference|null pointer dereference", m.group(2)):
+                    bb = m.group(3)       # rustc's pointer-validity instrumentation (debug builds): memory safety is not examined here
+                    continue
                 neg = condtxt.startswith("!")
                 v = self._operand(fn, condtxt[1:] if neg else condtxt, env)
+                if isinstance(v, Opaque) and getattr(self, "lenient", False):
+                    v = self.lazy_scalar(v, "bool")
                 ok = self.sem.not_(v.expr) if neg else v.expr
                 ok = self.sem.simplify(ok)
                 if ok != "true":
@@ -649,6 +709,16 @@ class Interp:
 
     def _call(self, fn, callee, args, pc, depth):
         """returns [(None, value)] for a single deterministic result or [(extra_pc, value, kind, msg)]"""
+        for tv, ty in getattr(self, "type_subst", {}).items():
+            # running a generic body for one instantiation: `<C as Trait>::m` -> `<Type as Trait>::m`
+            callee = re.sub(r"(?<![\w:])%s(?![\w:])" % re.escape(tv), ty, callee)
+        if getattr(self, "lenient", False) and args and isinstance(args[0], Opaque):
+            # a method of Option / Result on an abstract receiver: materialise the receiver first
+            hm = re.match(r"^<?(?:std::option::|core::option::)?(Option)\b|^<?(?:std::result::|core::result::)?(Result)\b", callee)
+            if hm:
+                args = [self.lazy_enum(args[0], hm.group(1) or hm.group(2))] + list(args[1:])
+        if any(re.search(pat, callee) for pat in getattr(self, "abstract_fns", ())):
+            return [(None, self.uf_call(callee, args))]
         for pat, model in self.models.items():
             if re.search(pat, callee):
                 r = model(self, args, callee)
@@ -673,12 +743,16 @@ class Interp:
         if re.match(r"^<.* as Clone>::clone$", callee) and len(args) == 1:
             # no body in the dump = a derived / std Clone: symbolic values are immutable, a copy is the value itself
             a0 = args[0]
-            return [(None, self.deref(a0, self.cur_env) if isinstance(a0, (MutRef, ElemRef, MapElemRef, LocalCell)) else a0)]
+            return [(None, self.deref(a0, self.cur_env) if isinstance(a0, (MutRef, ElemRef, MapElemRef, LocalCell, ProjRef)) else a0)]
         m = re.match(r"^<(.*) as PartialEq(<.*>)?>::(eq|ne)$", callee)
         if m and len(args) == 2:
             # a comparison nothing else models (it only shows up when the code under analysis starts reading state the encoding
             # leaves abstract): an unconstrained but deterministic boolean - a sound over-approximation
-            vals = [self.deref(a, self.cur_env) if isinstance(a, (MutRef, ElemRef, MapElemRef, LocalCell)) else a for a in args]
+            vals = [self.deref(a, self.cur_env) if isinstance(a, (MutRef, ElemRef, MapElemRef, LocalCell, ProjRef)) else a for a in args]
+            if all(isinstance(v, Enum) and all(not var.fields for var in v.variants.values()) for v in vals):
+                # field-less enums (derived PartialEq; `ne` is the trait's default method and has no body in the dump)
+                e = self.sem.simplify("(= %s %s)" % (vals[0].discr.expr, vals[1].discr.expr))
+                return [(None, SV("bool", e if m.group(3) == "eq" else self.sem.not_(e)))]
             memo = self.__dict__.setdefault("_abstract_eq", [])
             for x, y, b in memo:
                 if (x is vals[0] and y is vals[1]) or (x is vals[1] and y is vals[0]):
@@ -687,6 +761,10 @@ class Interp:
                 b = self.sem.fresh("Bool", "abs_eq")
                 memo.append((vals[0], vals[1], b))
             return [(None, SV("bool", b if m.group(3) == "eq" else "(not %s)" % b))]
+        if getattr(self, "lenient", False) and not any(isinstance(a, (MutRef, ElemRef, MapElemRef, LocalCell, ProjRef)) for a in args) \
+                and not re.search(r"^<.* as (Iterator|IntoIterator|Extend<.*>|Write)>::|::(push|insert|extend|retain|remove|clear|sort\w*|drain|truncate)(::<.*>)?$", callee):
+            # lenient mode: a call nothing models, without `&mut` arguments, is an uninterpreted function of its arguments
+            return [(None, self.uf_call(callee, args))]
         raise Unsupported("%s: call to %s has no model and is not in the inline set" % (fn.name, callee))
 
     def call_inlined(self, target, args, depth):
@@ -696,7 +774,7 @@ class Interp:
         refs, cells, args2 = {}, {}, []
         for i, a in enumerate(args):
             is_mut_param = i < len(target.args) and target.args[i][1].startswith("&mut ")
-            if isinstance(a, (MutRef, ElemRef, MapElemRef, LocalCell)):
+            if isinstance(a, (MutRef, ElemRef, MapElemRef, LocalCell, ProjRef)):
                 refs[i] = a
                 key = "arg#%d" % i
                 cells[key] = self.deref(a, self.cur_env)
@@ -713,10 +791,49 @@ class Interp:
             if len(r) >= 5 and r[2] == "return":
                 fenv = r[6] if len(r) > 6 else {}
                 writeback = [(i, fenv.get("arg#%d" % i)) for i in range(len(args)) if ("arg#%d" % i) in cells]
-                out.append((r[0], r[1], r[2], r[3], {"refs": refs, "writeback": writeback, "events": r[5] if len(r) > 5 else []}))
+                rv = self._rebase(r[1], refs)
+                if isinstance(rv, MutRef) and rv.fn is target:
+                    # a reference into one of the callee's reference parameters: re-express it in the caller's terms
+                    root, path = place_path(rv.place)
+                    idx = [i for i, (loc, _) in enumerate(target.args) if loc == root]
+                    if root is None or not idx:
+                        raise Unsupported("%s returns a reference to its own frame (%s)" % (target.name, rv.place))
+                    if idx[0] in refs:
+                        rv = ProjRef(refs[idx[0]], path)
+                    else:
+                        raise Unsupported("%s returns a projection of a by-value reference model" % target.name)
+                out.append((r[0], rv, r[2], r[3], {"refs": refs, "writeback": writeback, "events": r[5] if len(r) > 5 else []}))
             else:
                 out.append(r[:4])
         return out
+
+    def _rebase(self, v, refs, depth=0):
+        """references based on the callee's parameter slots (`arg#i`) become references based on what the caller passed"""
+        if isinstance(v, LocalCell):
+            m = re.match(r"^arg#(\d+)$", v.key)
+            if m and int(m.group(1)) in refs:
+                return refs[int(m.group(1))]
+            return v
+        if isinstance(v, ProjRef):
+            b = self._rebase(v.base, refs, depth)
+            return v if b is v.base else ProjRef(b, v.path)
+        if depth > 4:
+            return v
+        if isinstance(v, Enum):
+            changed, variants = False, {}
+            for k, a in v.variants.items():
+                a2 = self._rebase(a, refs, depth + 1)
+                changed = changed or a2 is not a
+                variants[k] = a2
+            return Enum(v.ty, v.discr, variants, v.names) if changed else v
+        if isinstance(v, Agg) and not isinstance(v, OpenAgg):
+            changed, fields = False, {}
+            for k, a in v.fields.items():
+                a2 = self._rebase(a, refs, depth + 1)
+                changed = changed or a2 is not a
+                fields[k] = a2
+            return Agg(v.ty, fields) if changed else v
+        return v
 
     def run_closure_seq(self, clo, items, unpack=False):
         """call a closure once per item, in order, threading the caller's state: captured `&mut` references are passed by
@@ -731,7 +848,7 @@ class Interp:
                 self.cur_env = env
                 cells, fields, caps = {}, {}, {}
                 for k, v in clo.fields.items():
-                    if isinstance(v, (MutRef, ElemRef, MapElemRef, LocalCell)):
+                    if isinstance(v, (MutRef, ElemRef, MapElemRef, LocalCell, ProjRef)):
                         key = "cap#%s" % k
                         cells[key] = self.deref(v, env)
                         fields[k] = LocalCell(key)
@@ -739,7 +856,8 @@ class Interp:
                     else:
                         fields[k] = v
                 clo2 = Agg(clo.ty, fields)
-                call_args = [clo2] + ([item.fields[x] for x in sorted(item.fields, key=int)] if unpack else [item])
+                unpacked = [] if (unpack and isinstance(item, Opaque)) else ([item.fields[x] for x in sorted(item.fields, key=int)] if unpack else [item])
+                call_args = [clo2] + unpacked
                 res = self.call_fn_full(f, call_args, 2, cells=cells)
                 self.cur_env = saved
                 for r in res:
@@ -802,6 +920,8 @@ class Interp:
         if callee.startswith(("std::", "core::", "alloc::", "<std::", "<core::", "<alloc::")):
             return None
         name = re.sub(r"::<[^:]*>$", "", callee).split("::")[-1]
+        if not re.match(r"^\w+$", name) and not callee.startswith("<"):
+            name = strip_turbofish(callee).split("::")[-1]      # generic arguments that contain `::` (closure types)
         if not re.match(r"^\w+$", name):
             return None
         cands = [f for n, fl in self.dump.fns.items() for f in fl
@@ -816,9 +936,45 @@ class Interp:
             m = re.search(r"<impl ([\w:]+)", callee)
             if m:
                 ty = m.group(1).split("::")[-1]
-                c2 = [f for f in cands if ty in f.args[0][1]]
+                c2 = [f for f in cands if self.type_head(f.args[0][1]) == ty] or [f for f in cands if ty in f.args[0][1]]
+                if len(set(f.sig for f in c2)) != 1:
+                    c3 = [f for f in cands if self.type_head(f.ret or "") == ty and self.type_head(f.args[0][1]) != ty]
+                    if c3 and len(set(f.sig for f in c3)) == 1 and not [f for f in cands if self.type_head(f.args[0][1]) == ty]:
+                        c2 = c3
                 if c2:
                     cands = c2
+        if len(cands) > 1 and callee.startswith("<"):
+            # `<Type<..> as Trait>::method`: the receiver is that type; associated functions without a receiver belong to the
+            # same impl block as a method resolved that way (or mention the type in their result)
+            tm = re.match(r"^<(.*) as ([^<>]*)(<.*>)?>::\w+", callee)
+            if tm:
+                head = self.type_head(tm.group(1))
+                impls = self.__dict__.setdefault("_impl_at", {})
+                key = (head, tm.group(2))
+                c2 = [f for f in cands if f.args and self.type_head(f.args[0][1]) == head]
+                if len(c2) != 1 and key in impls:
+                    c2 = [f for f in cands if f.name.rsplit("::", 1)[0] == impls[key]]
+                if len(c2) != 1:
+                    pat = re.compile(r"(^|[^\w])%s($|[^\w])" % re.escape(head))
+                    c2 = [f for f in cands if pat.search(f.ret or "")]
+                if len(c2) == 1:
+                    cands = c2
+                    impls.setdefault(key, c2[0].name.rsplit("::", 1)[0])
+        if len(cands) > 1:
+            # `Type::method`: the receiver (first parameter) or, for constructors, the result is that type
+            segs = strip_turbofish(callee).split("::")
+            if len(segs) >= 2 and re.match(r"^[A-Z]\w*$", segs[-2]):
+                ty = segs[-2]
+                pat = re.compile(r"(^|[^\w])%s($|[^\w])" % re.escape(ty))
+                c2 = [f for f in cands if f.args and pat.search(f.args[0][1])]
+                if len(c2) != 1:
+                    c3 = [f for f in cands if pat.search(f.ret or "") and not (f.args and pat.search(f.args[0][1]))]
+                    c2 = c2 if len(c2) == 1 else (c3 if len(c3) == 1 and not c2 else c2)
+                if len(c2) == 1:
+                    cands = c2
+        if len(cands) > 1 and len(set(f.sig for f in cands)) == 1:
+            # the same item printed twice (macro-generated inherent + trait impl, e.g. bitflags): same signature, same source position
+            cands = cands[:1]
         if len(cands) == 1:
             return cands[0]
         return None
@@ -838,10 +994,14 @@ class Interp:
         if re.match(r"^_\d+$", place):
             env[place] = val
             return
+        rm = re.match(r"^\(+\*(_\d+)\)", place)
+        if rm and isinstance(env.get(rm.group(1)), BoxCell):
+            env[rm.group(1)].content = val
+            return
         if place.startswith("(*") and place.endswith(")"):
             inner = place[2:-1].strip()
             cur = self._place(fn, inner, env) if not re.match(r"^_\d+$", inner) or inner in env else None
-            if isinstance(cur, (MutRef, ElemRef, MapElemRef, LocalCell)):
+            if isinstance(cur, (MutRef, ElemRef, MapElemRef, LocalCell, ProjRef)):
                 self.write_ref(cur, val, env)
             else:
                 self._assign(fn, inner, val, env)     # references modelled by value
@@ -872,11 +1032,22 @@ class Interp:
             nb.fields[idx] = val
             self._assign(fn, inner, nb, env)
             return
+        m = re.match(r"^(.*)\[(_\d+)\]$", place)
+        if m:
+            base = self._place(fn, m.group(1), env)
+            vec = self.deref(base, env) if isinstance(base, (MutRef, ElemRef, MapElemRef, LocalCell, ProjRef)) else base
+            idx = env.get(m.group(2))
+            if isinstance(vec, VecVal) and isinstance(idx, SV) and re.match(r"^\d+$", idx.expr) and int(idx.expr) < len(vec.items):
+                items = list(vec.items)
+                items[int(idx.expr)] = val
+                self._assign(fn, m.group(1), VecVal(items), env)
+                return
+            raise Unsupported("%s: store to index %s of %r" % (fn.name, idx, vec))
         raise Unsupported("%s: assignment to place %s" % (fn.name, place))
 
     # -- places / operands
     def _place(self, fn, p, env):
-        p = p.strip()
+        p = re.sub(r"^(\(fake\)|fake shallow|fake) ", "", p.strip())
         if re.match(r"^_\d+$", p):
             if p not in env:
                 raise Unsupported("%s: read of unassigned local %s" % (fn.name, p))
@@ -890,6 +1061,9 @@ class Interp:
             vm = re.match(r"^\((.*) as (?:variant#)?(\w+)\)$", inner)
             if vm:
                 base = self._place(fn, vm.group(1), env)
+                if isinstance(base, Opaque) and getattr(self, "lenient", False):
+                    t = self.place_type(fn, vm.group(1))
+                    base = self.lazy_enum(base, self.type_head(t)) if t else base
                 if not isinstance(base, Enum):
                     raise Unsupported("%s: downcast of non-enum %r" % (fn.name, base))
                 var = base.variants.get(vm.group(2))
@@ -898,11 +1072,103 @@ class Interp:
                 return self._field(fn, var, m.group(2))
             base = self._place(fn, inner, env)
             return self._field(fn, base, m.group(2))
+        m = re.match(r"^(.*)\[(_\d+)\]$", p)
+        if m:
+            base = self._place(fn, m.group(1), env)
+            base = self.deref(base, env) if isinstance(base, (MutRef, ElemRef, MapElemRef, LocalCell, ProjRef)) else base
+            idx = env.get(m.group(2))
+            if isinstance(base, VecVal) and isinstance(idx, SV) and re.match(r"^\d+$", idx.expr) and int(idx.expr) < len(base.items):
+                return base.items[int(idx.expr)]
+            if isinstance(base, Opaque) and getattr(self, "lenient", False):
+                return self.uf_call("index", [base, idx])
+            raise Unsupported("%s: index %s of %r" % (fn.name, idx, base))
         raise Unsupported("%s: place %s" % (fn.name, p))
 
+    # -- lazy initialisation of state the caller left abstract
+    def lazy_field(self, base, idx, what):
+        """reading an untracked field twice yields the same abstract value"""
+        memo = self.__dict__.setdefault("_lazy_fields", {})
+        key = (id(base), idx)
+        if key not in memo:
+            memo[key] = (base, Opaque("field %s of %s" % (idx, what)))
+        return memo[key][1]
+
+    def lazy_enum(self, v, ty, hint=""):
+        """an abstract value that is matched on becomes an enum of its static type with an unconstrained discriminant and
+        abstract payloads (once: the same abstract value always materialises to the same enum).  Only in lenient mode."""
+        if isinstance(v, Enum) or not isinstance(v, Opaque) or not getattr(self, "lenient", False):
+            return v
+        memo = self.__dict__.setdefault("_lazy_enums", {})
+        if id(v) in memo:
+            return memo[id(v)][1]
+        if ty == "Option":
+            names, fields = ["None", "Some"], {"None": [], "Some": ["0"]}
+        elif ty == "Result":
+            names, fields = ["Ok", "Err"], {"Ok": ["0"], "Err": ["0"]}
+        elif ty in self.decls.enums:
+            variants = self.decls.enums.lookup(ty, hint)
+            names = [n for n, _ in variants]
+            fields = {n: [str(i) for i in range(len(fl))] for n, fl in variants}
+        else:
+            return v
+        d = self.sem.sym_int("%s_lz%d_%s" % (self.sem.prefix, len(memo), re.sub(r"\W", "", ty)), "isize", 0, len(names) - 1)
+        e = Enum(ty, SV("isize", d), {n: Agg(ty + "::" + n, {i: Opaque("%s.%s of %s" % (n, i, v.what)) for i in fields[n]}) for n in names}, names)
+        memo[id(v)] = (v, e)
+        return e
+
+    def uf_call(self, callee, args):
+        """uninterpreted function: the same callee on the very same argument values gives the same abstract result"""
+        args = [self.deref(a, self.cur_env) if isinstance(a, (MutRef, ElemRef, MapElemRef, LocalCell, ProjRef)) else a for a in args]
+        memo = self.__dict__.setdefault("_uf_calls", [])
+        for c0, a0, r0 in memo:
+            if c0 == callee and len(a0) == len(args) and all((x is y) or (isinstance(x, SV) and isinstance(y, SV) and x.expr == y.expr) for x, y in zip(a0, args)):
+                return r0
+        r0 = Opaque("call " + callee, args)
+        memo.append((callee, list(args), r0))
+        self.__dict__.setdefault("abstracted_calls", set()).add(strip_turbofish(callee))
+        return r0
+
+    def lazy_scalar(self, v, ty):
+        """an abstract value that is branched on becomes an unconstrained scalar of its static type (once)"""
+        memo = self.__dict__.setdefault("_lazy_scalars", {})
+        if id(v) in memo:
+            return memo[id(v)][1]
+        ty = (ty or "").strip()
+        if ty == "bool":
+            sv = SV("bool", self.sem.fresh("Bool", "lzb"))
+        elif ty in INT_BITS:
+            bits, signed = INT_BITS[ty]
+            lo, hi = (-(2 ** (bits - 1)), 2 ** (bits - 1) - 1) if signed else (0, 2 ** bits - 1)
+            sv = SV(ty, self.sem.sym_int("%s_lzi%d" % (self.sem.prefix, len(memo)), ty, lo, hi))
+        else:
+            raise Unsupported("branch on an abstract value of type %r (%s)" % (ty, v.what[:80]))
+        memo[id(v)] = (v, sv)
+        return sv
+
+    @staticmethod
+    def type_head(ty):
+        """`&std::option::Option<Located<..>>` -> `Option`"""
+        ty = re.sub(r"^(&('\w+ )?(mut )?)+", "", ty.strip())
+        ty = ty.split("<")[0]
+        return ty.split("::")[-1]
+
+    def place_type(self, fn, p):
+        p = p.strip()
+        if re.match(r"^_\d+$", p):
+            return fn.locals.get(p)
+        m = re.match(r"^\((.*)\.(\d+): (.+)\)$", p)
+        if m:
+            return m.group(3)
+        if p.startswith("(*") and p.endswith(")"):
+            t = self.place_type(fn, p[2:-1])
+            return re.sub(r"^&('\w+ )?(mut )?", "", t) if t else None
+        return None
+
     def deref(self, v, env):
+        if isinstance(v, BoxCell):
+            return v
         if isinstance(v, LocalCell):
-            return self.deref(env[v.key], env) if isinstance(env[v.key], (MutRef, ElemRef, MapElemRef, LocalCell)) else env[v.key]
+            return self.deref(env[v.key], env) if isinstance(env[v.key], (MutRef, ElemRef, MapElemRef, LocalCell, ProjRef)) else env[v.key]
         if isinstance(v, MutRef):
             return self._place(v.fn, v.place, env)
         if isinstance(v, ElemRef):
@@ -911,7 +1177,24 @@ class Interp:
         if isinstance(v, MapElemRef):
             m = self.deref(v.mapref, env)
             return m.entries[v.idx][1]
+        if isinstance(v, ProjRef):
+            cur = self.deref(v.base, env)
+            for kind, k in v.path:
+                if kind == "f":
+                    cur = self._field(_AnyFn, cur, k)
+                else:
+                    if isinstance(cur, Opaque) and getattr(self, "lenient", False):
+                        raise Unsupported("projection through an abstract enum")
+                    cur = cur.variants[k]
+            return cur
         return v
+
+    def _store_back(self, fn, place, old, new, env):
+        """best effort: replace the abstract value by its materialised form where it is stored (plain locals only);
+        the memo in lazy_enum covers every other access path"""
+        place = place.strip()
+        if re.match(r"^_\d+$", place) and env.get(place) is old:
+            env[place] = new
 
     def write_ref(self, ref, val, env):
         """store through a &mut obtained earlier in this activation"""
@@ -929,18 +1212,42 @@ class Interp:
             entries = list(m.entries)
             entries[ref.idx] = (entries[ref.idx][0], val)
             self.write_ref(ref.mapref, MapVal(entries), env)
+        elif isinstance(ref, ProjRef):
+            root = self.deref(ref.base, env)
+
+            def upd(cur, path):
+                if not path:
+                    return val
+                kind, k = path[0]
+                if kind == "f":
+                    if not isinstance(cur, Agg):
+                        raise Unsupported("store through a projection of %r" % (cur,))
+                    fields = dict(cur.fields)
+                    fields[k] = upd(self._field(_AnyFn, cur, k), path[1:])
+                    new = cur.__class__(cur.ty, fields)
+                    return new
+                if not isinstance(cur, Enum):
+                    raise Unsupported("store through a variant projection of %r" % (cur,))
+                variants = dict(cur.variants)
+                variants[k] = upd(variants[k], path[1:])
+                return Enum(cur.ty, cur.discr, variants, cur.names)
+            self.write_ref(ref.base, upd(root, ref.path), env)
         else:
             raise Unsupported("store through a non-reference %r" % (ref,))
 
     def _field(self, fn, base, idx):
+        if isinstance(base, BoxCell):
+            return base
         if isinstance(base, Agg):
             if idx not in base.fields:
-                if isinstance(base, OpenAgg):
-                    return Opaque("field %s of %s" % (idx, base.ty))
+                if isinstance(base, OpenAgg) or (getattr(self, "lenient", False) and base.ty.startswith("{closure@")):
+                    # (rustc's MIR printer drops captures that share a root variable, e.g. `self.a` and `self.b`: a capture
+                    # missing from the printed aggregate reads as an abstract value)
+                    return self.lazy_field(base, idx, base.ty)
                 raise Unsupported("%s: field %s of %r not tracked" % (fn.name, idx, base))
             return base.fields[idx]
         if isinstance(base, Opaque):
-            return Opaque("field %s of %s" % (idx, base.what))
+            return self.lazy_field(base, idx, base.what)
         raise Unsupported("%s: field %s of non-aggregate %r" % (fn.name, idx, base))
 
     def _operand(self, fn, o, env):
@@ -984,8 +1291,12 @@ class Interp:
         if m and m.group(1) in ("EPSILON", "MAX", "MIN_POSITIVE"):
             v = {"EPSILON": "2.220446049250313e-16", "MAX": "1.7976931348623157e308", "MIN_POSITIVE": "2.2250738585072014e-308"}[m.group(1)]
             return SV("f64", sem.float_const(v, "f64"))
+        if c == "()":
+            return Opaque("unit")
+        if re.search(r" as (std::mem::)?SizedTypeProperties>::(ALIGN|SIZE|IS_ZST)$", c):
+            return Opaque("layout constant " + c[-5:])
         if re.search(r"promoted\[\d+\]$", c):
-            pm = re.search(r"::(\w+)::promoted\[(\d+)\]$", strip_turbofish(c))
+            pm = re.search(r"::(\w+(?:::\{closure#\d+\})*)::promoted\[(\d+)\]$", strip_turbofish(c))
             hits = []
             if pm:
                 tail = "::%s::promoted[%s]" % (pm.group(1), pm.group(2))
@@ -993,6 +1304,12 @@ class Interp:
                 if len(hits) > 1:
                     h2 = [f for f in hits if f.name.split("::")[0] == c.split("::")[0]]
                     hits = h2 or hits
+                if len(hits) > 1:
+                    # `module::Type::method::promoted[n]` (a method: printed under `<impl at ..>`) vs `module::function::promoted[n]`
+                    segs = strip_turbofish(c).split("::")
+                    owner_is_type = len(segs) >= 3 and bool(re.match(r"^[A-Z]", segs[-3 - pm.group(1).count("::")]))
+                    h3 = [f for f in hits if ("<impl at" in f.name) == owner_is_type]
+                    hits = h3 or hits
             if len(hits) != 1:
                 raise Unsupported("promoted constant %s: %d candidates" % (c, len(hits)))
             outs = []
@@ -1000,6 +1317,24 @@ class Interp:
             if len(outs) != 1 or outs[0].kind != "return":
                 raise Unsupported("promoted constant %s not a straight line" % c)
             return outs[0].value
+        m = re.match(r"^(?:[\w:]+::)?(\w+)::([A-Z][A-Z0-9_]*)$", c)
+        if m:
+            # associated constant `Type::NAME`: evaluate its body from the dump
+            hits = [f for name, fl in self.dump.fns.items() for f in fl
+                    if name.endswith("::" + m.group(2)) and f.sig.startswith("const ") and self.type_head(f.ret or "") == m.group(1)]
+            if not hits and not re.match(r"^[A-Z]", m.group(1)):
+                # module-level constant `path::to::NAME`
+                hits = [f for name, fl in self.dump.fns.items() for f in fl if name == m.group(2) and f.sig.startswith("const ")]
+            if len(hits) == 1:
+                memo = self.__dict__.setdefault("_const_memo", {})
+                if c not in memo:
+                    outs = []
+                    self._exec(hits[0], "bb0", {}, [], outs, [], 1)
+                    rets = [o for o in outs if o.kind == "return"]
+                    if len(rets) != 1:
+                        raise Unsupported("constant %s does not evaluate on a single path" % c)
+                    memo[c] = rets[0].value
+                return memo[c]
         m = re.match(r"^(?:[\w:<>, ]+::)?(\w+)::<.*>::(\w+)$|^(?:[\w:<>, ]+::)?(\w+)::(\w+)$", c)
         # unit-like enum constant, e.g. `std::option::Option::<Infallible>::None`
         if m:
@@ -1007,8 +1342,11 @@ class Interp:
             var = m.group(2) or m.group(4)
             if ty in self.decls.enums and var in [v for v, _ in self.decls.enums[ty]]:
                 return self._mk_enum(ty, var, [])
-        if c.startswith("{alloc") or c.startswith("{"):
+        if c.startswith("{alloc") or c.startswith("{") or c.startswith('b"'):
             return Opaque("static " + c)
+        if getattr(self, "lenient", False) and re.search(r"(^|::)[A-Z][A-Z0-9_]*$", c):
+            memo = self.__dict__.setdefault("_abstract_consts", {})
+            return memo.setdefault(c, Opaque("constant " + c))
         raise Unsupported("%s: constant %s" % (fn.name, c))
 
     @staticmethod
@@ -1041,7 +1379,13 @@ class Interp:
                 return self._cast(fn, v, m.group(2).strip(), m.group(3))
             return self._operand(fn, r, env)
         if r.startswith("&mut "):
-            return MutRef(fn, r[len("&mut "):].strip())
+            place = r[len("&mut "):].strip()
+            root, path = place_path(place)
+            if root and re.search(r"\(\*%s\)" % root, place) and isinstance(env.get(root), (MutRef, ElemRef, MapElemRef, LocalCell, ProjRef)):
+                # a projection through a reference held in a local: express it relative to that reference, so that it
+                # stays meaningful when it leaves this activation (returned, stored in an Option, captured)
+                return ProjRef(env[root], path) if path else env[root]
+            return MutRef(fn, place)
         if r.startswith("&"):
             p = re.sub(r"^&(raw (const|mut) |mut )?", "", r)
             return self._place(fn, p, env)
@@ -1052,14 +1396,32 @@ class Interp:
             return self._binop(fn, m.group(1), a, b)
         if m and m.group(1) in ("Not", "Neg"):
             a = self._operand(fn, m.group(2), env)
+            if isinstance(a, Opaque) and getattr(self, "lenient", False):
+                return self.uf_call("unop " + m.group(1), [a])
             if m.group(1) == "Not":
                 if a.sort != "bool":
                     raise Unsupported("Not on %s" % a.sort)
                 return SV("bool", sem.not_(a.expr))
             return SV(a.sort, sem.neg(a.expr, a.sort))
+        m = re.match(r"^PtrMetadata\((.*)\)$", r)
+        if m:
+            v = self._operand(fn, m.group(1), env)
+            v = self.deref(v, env) if isinstance(v, (MutRef, ElemRef, MapElemRef, LocalCell, ProjRef)) else v
+            if isinstance(v, VecVal):
+                return SV("usize", str(len(v.items)))
+            if isinstance(v, Opaque) and getattr(self, "lenient", False):
+                return self.uf_call("slice length", [v])
+            raise Unsupported("%s: PtrMetadata of %r" % (fn.name, v))
         m = re.match(r"^discriminant\((.*)\)$", r)
         if m:
             v = self._place(fn, m.group(1), env)
+            if isinstance(v, Opaque) and getattr(self, "lenient", False):
+                t = self.place_type(fn, m.group(1))
+                if t:
+                    e = self.lazy_enum(v, self.type_head(t))
+                    if isinstance(e, Enum):
+                        self._store_back(fn, m.group(1), v, e, env)
+                        v = e
             if not isinstance(v, Enum):
                 raise Unsupported("%s: discriminant of %r" % (fn.name, v))
             return v.discr
@@ -1097,18 +1459,35 @@ class Interp:
                 return Agg(parts[-1], {str(order.index(k)): v for k, v in named.items()})
             raise Unsupported("%s: aggregate %s" % (fn.name, r))
         m = re.match(r"^([\w:<>, &'\[\]]+?)\((.*)\)$", r)
+        if "::<" in r and r.endswith(")"):
+            # generic arguments may contain parentheses (tuple types): cut the path at the first `(` outside `<..>`
+            d, cut = 0, None
+            for i, ch in enumerate(r):
+                if ch == "<":
+                    d += 1
+                elif ch == ">" and r[i - 1] not in "-=":
+                    d -= 1
+                elif ch == "(" and d == 0:
+                    cut = i
+                    break
+            if cut is not None and re.match(r"^[\w:]+$", strip_turbofish(r[:cut])):
+                m = re.match(r"^(.*)$", r[:cut])
+                m = type("M", (), {"group": staticmethod(lambda i, a=r[:cut], b=r[cut + 1:-1]: a if i == 1 else b)})()
         if m:
-            path = re.sub(r"::<.*?>(?=::|$)", "", m.group(1).strip())
+            path = strip_turbofish(m.group(1).strip())
             vals = [self._operand(fn, x, env) for x in split_top(m.group(2))] if m.group(2).strip() else []
             parts = path.split("::")
             if len(parts) >= 2 and parts[-2] in self.decls.enums and parts[-1] in [v for v, _ in self.decls.enums[parts[-2]]]:
                 return self._mk_enum(parts[-2], parts[-1], vals)
             if parts[-1] in self.decls.structs:
                 return Agg(parts[-1], {str(i): v for i, v in enumerate(vals)})
+            if re.match(r"^[A-Z]\w*$", parts[-1]) and (len(parts) == 1 or not re.match(r"^[A-Z]", parts[-2])):
+                # a tuple struct the source scan does not know (macro-generated, e.g. bitflags' `Modifiers(InternalBitFlags)`)
+                return Agg(parts[-1], {str(i): v for i, v in enumerate(vals)})
             raise Unsupported("%s: aggregate %s" % (fn.name, r))
-        m = re.match(r"^([\w:<>, &'\[\]]+)$", r)
+        m = re.match(r"^([\w:<>, &'\[\]]+)$", r) or (re.match(r"^[\w:]+$", strip_turbofish(r)) if "::<" in r and "(" not in strip_turbofish(r) and "{" not in strip_turbofish(r) else None)
         if m:
-            path = re.sub(r"::<.*?>(?=::|$)", "", r)
+            path = strip_turbofish(r) if "::<" in r else r
             parts = path.split("::")
             if len(parts) >= 2 and parts[-2] in self.decls.enums and parts[-1] in [v for v, _ in self.decls.enums[parts[-2]]]:
                 return self._mk_enum(parts[-2], parts[-1], [])
@@ -1119,6 +1498,12 @@ class Interp:
     def _binop(self, fn, op, a, b):
         sem = self.sem
         if not isinstance(a, SV) or not isinstance(b, SV):
+            if getattr(self, "lenient", False) and all(isinstance(x, (SV, Opaque)) for x in (a, b)):
+                if op.endswith("WithOverflow"):
+                    # arithmetic on integers the encoding keeps abstract (span offsets): assumed not to overflow - stated in the evidence
+                    self.__dict__.setdefault("abstracted_calls", set()).add("overflow flag of arithmetic on abstract integers (assumed clear)")
+                    return Agg("tuple", {"0": self.uf_call("binop " + op[:-len("WithOverflow")], [a, b]), "1": SV("bool", "false")})
+                return self.uf_call("binop " + op, [a, b])
             raise Unsupported("%s: binop on non-scalars" % fn.name)
         if a.sort in ("f64", "f32"):
             if op in ("Add", "Sub", "Mul", "Div"):
@@ -1138,6 +1523,11 @@ class Interp:
                 return Agg("tuple", {"0": SV(a.sort, res), "1": SV("bool", ovf)})
             if op in ("Add", "Sub", "Mul", "Div", "Rem"):
                 return SV(a.sort, sem.int_arith(op, a.expr, b.expr, a.sort))
+            if op in ("BitAnd", "BitOr", "BitXor", "Shl", "Shr"):
+                try:
+                    return SV(a.sort, sem.int_bitop(op, a.expr, b.expr, a.sort))
+                except ValueError as e:
+                    raise Unsupported("int op %s: %s" % (op, e))
             raise Unsupported("int op %s" % op)
         raise Unsupported("%s: binop %s on %s" % (fn.name, op, a.sort))
 
@@ -1152,6 +1542,8 @@ class Interp:
                 return SV(ty, sem.int_to_float(v.expr, v.sort, ty))
             if kind == "IntToInt":
                 return SV(ty, sem.int_to_int(v.expr, v.sort, ty))
+        if kind == "Transmute" and isinstance(v, BoxCell) and ty in INT_BITS:
+            return Opaque("address")
         if kind in ("PointerCoercion", "PtrToPtr", "Transmute") or kind.startswith("Pointer"):
             return v
         raise Unsupported("%s: cast %s of %r to %s" % (fn.name, kind, v, ty))
